@@ -147,8 +147,8 @@ are scalars, empty containers `{}`, objects, and arrays of scalars / objects / a
 containers, nested to any depth (the structure of save files), fields written with or without
 the optional `=` before `{` (`a={..}` and `a{..}` have the same content), ghost `{}` in key
 position and at the start of a container, headers (`rgb {..}`) in field-value position, a BOM in
-front.  Missing fragments: parameter blocks, object→array mixed containers, `@[..]` variables and
-unquoted scalars starting with `@`.  These are decided by the correspondence run and the
+front, `@variables` and `@[..]` as keys, values and array elements.  Missing fragments: parameter
+blocks, object→array mixed containers.  These are decided by the correspondence run and the
 layout/faithfulness oracles.
 -/
 /-- fragment 1 of C01_faithful: a flat document under ANY valid layout parses to a tape that is,
@@ -239,6 +239,26 @@ theorem C01_faithful_ghost_start_partial (g0 : Bytes) (k : Scal) (g1 : Bytes) (o
 /-- the hypotheses are satisfiable: `c=rgb{1 2} g={{} x}⏎` (a header, a ghost at the start). -/
 example : JValidF exampleHdr [10] ∧ Blank [10] ∧ hasBom (jrenderF exampleHdr ++ [10]) = false :=
   exampleHdr_valid
+
+/-- C01_faithful, `@variables` and `@[…]`: wherever fragment 3 has a scalar (key, value, array
+element) it may be a variable `@name` or an interpolated expression `@[ … ]` (taken up to the
+first `]`, blanks and operators inside included); it becomes an `Unquoted` token carrying all
+its bytes. -/
+theorem C01_faithful_variables_partial (g0 : Bytes) (k : Scal) (g1 : Bytes) (o : Op) (g : Bytes) (s : Scal)
+    (rest : JFields) (gt : Bytes) (hgt : Blank gt) (hs : s.IsVar ∨ s.IsInterp)
+    (hv : JValidF (.cons g0 k g1 o (.scal g s) rest) gt)
+    (hb : hasBom (jrenderF (.cons g0 k g1 o (.scal g s) rest) ++ gt) = false) :
+    ∃ T, parse (jrenderF (.cons g0 k g1 o (.scal g s) rest) ++ gt) = .ok T false ∧
+      T.map Tok.erase =
+        [(k.tok []).erase] ++ o.toks ++ [.unquoted ⟨0, s.bytes⟩] ++
+          ktapeF (kcontentF rest) (0 + (1 + o.toks.length + 1)) := by
+  obtain ⟨T, h1, h2⟩ := faithful_tree _ gt hgt hv hb
+  have hq : s.quoted = false := by rcases hs with h | h <;> exact h.1
+  exact ⟨T, h1, by rw [h2]; simp [kcontentF, kcontentV, ktapeF, ktapeV, kcntV, Scal.tok, hq, Tok.erase]⟩
+
+/-- the hypotheses are satisfiable: `@x = @[1 + x] y=@x⏎`. -/
+example : JValidF exampleVar [10] ∧ Blank [10] ∧ hasBom (jrenderF exampleVar ++ [10]) = false :=
+  exampleVar_valid
 
 /-- C01_faithful, BOM in front of a structured document: same tape (positions included, since the
 model records them relative to the end of the input), BOM flag set. -/
